@@ -436,6 +436,29 @@ class DD:
                     else:
                         out.extend(self._apply(args[1], [payload], a2, depth))
             return out
+        if c in (O + 'zip', O + 'xor', O + 'or', O + 'and'):
+            meth = c.split('::')[-1]
+
+            def forks(opt, a0):
+                if opt[0] == 'opt':
+                    return [(a2, (Sym(opt[1]) if has else None)) for a2, has in self._fork_has(opt[1], a0)]
+                if opt[0] == 'some':
+                    return [(a0, opt[1])]
+                if opt[0] == 'none':
+                    return [(a0, None)]
+                raise Undecided('%s: %s on %r' % (body.path, meth, opt))
+            out = []
+            for a2, p0 in forks(args[0], asg):
+                for a3, p1 in forks(args[1], a2):
+                    if meth == 'zip':
+                        out.append((a3, ('some', ('tuple', [p0, p1])) if p0 is not None and p1 is not None else ('none',)))
+                    elif meth == 'and':
+                        out.append((a3, ('some', p1) if p0 is not None and p1 is not None else ('none',)))
+                    elif meth == 'or':
+                        out.append((a3, ('some', p0) if p0 is not None else (('some', p1) if p1 is not None else ('none',))))
+                    else:
+                        out.append((a3, ('some', p0) if (p0 is not None and p1 is None) else (('some', p1) if (p1 is not None and p0 is None) else ('none',))))
+            return out
         if c in ('std::cmp::PartialEq::eq', 'std::cmp::PartialEq::ne'):
             a, b = args
             if a[0] == 'adt' and b[0] == 'adt':
@@ -450,7 +473,9 @@ class DD:
             return [(asg, args[0])]
         for a in args:
             if is_symbolic(a) and c not in self.vocab and self.F.body(c) is None:
-                raise DataDependence('%s: symbolic input %s passed to %s' % (body.path, sym_key(a), c))
+                # a library call this engine has no model for: what it does with the value is unknown - not evidence that the
+                # decision depends on the data (only operations that inspect the bytes themselves are: comparisons, casts, indexing)
+                raise Undecided('%s: symbolic input %s passed to unmodelled %s' % (body.path, sym_key(a), c))
         return self._call_path(c, args, asg, depth)
 
 
